@@ -217,6 +217,56 @@ pub fn random_path(rng: &mut Rng, win: bool) -> Vec<u8> {
     v
 }
 
+/// long, realistic paths: 8-30 components, names of 1-40 bytes (ASCII words, dotted names, multi-byte
+/// UTF-8, now and then a raw byte >= 0x80), `.` / `..` sprinkled in, runs of separators; 24-600 bytes.
+/// The exhaustive small-alphabet domains never reach these sizes: anything that depends on a length,
+/// a count, a chunk boundary or the high bit only shows here.
+pub fn long_random_path(rng: &mut Rng, win: bool) -> Vec<u8> {
+    const WORDS: &[&[u8]] = &[b"a", b"bc", b"usr", b"local", b"share", b"Program Files", b"node_modules", b"x86_64-unknown-linux-gnu",
+        b"very-long-directory-name-with-dashes", b"file.tar.gz", b".hidden", b"..data", b"name.", b"a.b.c.d", b"README.md",
+        "caf\u{e9}".as_bytes(), "\u{65e5}\u{672c}\u{8a9e}".as_bytes(), "\u{1f600}.txt".as_bytes(), b"0123456789abcdef", b"0123456789abcdefg",
+        b"ABCDEFGHIJKLMNOPQRSTUVWXYZabcdef", b"ABCDEFGHIJKLMNOPQRSTUVWXYZabcdefg"];
+    let mut v: Vec<u8> = Vec::new();
+    let seps: &[u8] = if win { b"\\/" } else { b"/" };
+    if win && rng.chance(1, 2) {
+        v.extend_from_slice(*rng.pick::<&[u8]>(WIN_SEEDS));
+        if rng.chance(2, 3) {
+            v.push(b'\\');
+        }
+    } else if rng.chance(1, 2) {
+        v.push(*rng.pick(seps));
+    }
+    let ncomp = 8 + rng.below(23);
+    for i in 0..ncomp {
+        match rng.below(12) {
+            0 => v.extend_from_slice(b"."),
+            1 => v.extend_from_slice(b".."),
+            2 => {
+                // a synthetic name of a random length, so that every length up to 40 occurs
+                let n = 1 + rng.below(40);
+                for k in 0..n {
+                    v.push(b'a' + ((k + i) % 26) as u8);
+                }
+                if rng.chance(1, 2) {
+                    v.extend_from_slice(b".ext");
+                }
+            }
+            3 => {
+                v.extend_from_slice(*rng.pick::<&[u8]>(WORDS));
+                v.push(0x80 | (rng.next() & 0x7f) as u8);
+            }
+            _ => v.extend_from_slice(*rng.pick::<&[u8]>(WORDS)),
+        }
+        if i + 1 < ncomp || rng.chance(1, 3) {
+            let n = if rng.chance(1, 8) { 2 + rng.below(3) } else { 1 };
+            for _ in 0..n {
+                v.push(if win && rng.chance(3, 4) { b'\\' } else { *rng.pick(seps) });
+            }
+        }
+    }
+    v
+}
+
 /// Inputs harvested by `check` from op lines on which model and implementation disagreed
 /// (file named by $VERIF_EXTRA, one `x<hex>` per line).  They are added to every oracle domain
 /// so that the search for a failing input starts where the correspondence broke.  Never set
@@ -250,6 +300,9 @@ pub fn dom_unix(tier: &str, seed: u64) -> Vec<Vec<u8>> {
     for _ in 0..(if t { 50_000 } else { 3_000 }) {
         v.push(random_path(&mut rng, false));
     }
+    for _ in 0..(if t { 3_000 } else { 300 }) {
+        v.push(long_random_path(&mut rng, false));
+    }
     with_extras(v)
 }
 
@@ -261,6 +314,9 @@ pub fn dom_unix_small(tier: &str, seed: u64) -> Vec<Vec<u8>> {
     let mut rng = Rng::new(seed ^ 0x12);
     for _ in 0..(if t { 400 } else { 100 }) {
         v.push(random_path(&mut rng, false));
+    }
+    for _ in 0..(if t { 60 } else { 20 }) {
+        v.push(long_random_path(&mut rng, false));
     }
     with_extras(v)
 }
@@ -290,6 +346,9 @@ pub fn dom_win(tier: &str, seed: u64) -> Vec<Vec<u8>> {
     for _ in 0..(if t { 50_000 } else { 3_000 }) {
         v.push(random_path(&mut rng, true));
     }
+    for _ in 0..(if t { 3_000 } else { 300 }) {
+        v.push(long_random_path(&mut rng, true));
+    }
     with_extras(v)
 }
 
@@ -312,6 +371,9 @@ pub fn dom_win_small(tier: &str, seed: u64) -> Vec<Vec<u8>> {
     let mut rng = Rng::new(seed ^ 0x22);
     for _ in 0..(if t { 400 } else { 100 }) {
         v.push(random_path(&mut rng, true));
+    }
+    for _ in 0..(if t { 60 } else { 20 }) {
+        v.push(long_random_path(&mut rng, true));
     }
     with_extras(v)
 }
@@ -336,6 +398,12 @@ pub fn dom_args(win: bool, tier: &str, seed: u64) -> Vec<Vec<u8>> {
     let mut rng = Rng::new(seed ^ 0x31);
     for _ in 0..(if t { 300 } else { 60 }) {
         v.push(random_path(&mut rng, win));
+    }
+    for _ in 0..(if t { 40 } else { 10 }) {
+        v.push(long_random_path(&mut rng, win));
+    }
+    for n in [16usize, 17, 33, 65, 257] {
+        v.push((0..n).map(|k| b'a' + (k % 26) as u8).collect());
     }
     with_extras(v)
 }
